@@ -58,7 +58,7 @@ ASSUMPTIONS = ['Gauss quadrature of the degree chosen per geometry (2 affine map
                '1-D simplex meshes (mesh.simplex with line elements) are not generated: SimplexTopology.boundary asserts "duplicate nodes" for them']
 import os
 # C10_NCASES / C10_BUDGET: development overrides only (planted-break runs on a loaded machine)
-NCASES = {'quick': int(os.environ.get('C10_NCASES', 600)), 'thorough': int(os.environ.get('C10_NCASES', 5000))}
+NCASES = {'quick': int(os.environ.get('C10_NCASES', 500)), 'thorough': int(os.environ.get('C10_NCASES', 5000))}
 MINCASES = {'quick': 300, 'thorough': 2000}   # below this many histories the run is inconclusive (deadline hit on a loaded machine)
 BUDGET_S = {'quick': int(os.environ.get('C10_BUDGET', 100)), 'thorough': int(os.environ.get('C10_BUDGET', 1500))}
 CHUNK = 10
